@@ -311,7 +311,7 @@ PROPS = {
         trusted=TB,
         assumed=[
             "worlds handed to a ranking are well-formed bitstrings of its signature, and Wof(b) abbreviates WofN(b, signature) (the computation of symbolize_bitvec is proved: contract symbolize_bitvec#impl, lemma WofN.map)",
-            "PJ: the bit deletion in marginalize (a string comprehension) is a function of world, signature and marginalization (which bits it deletes: bounded, module c18)",
+            "precondition of marginalize: every world of the ranking has one character per atom of the signature (TB-py: ''.join of one-character strings is a function of the list)",
             "abstract rank_world of the base class returns RKf(world), or raises (compute_conditionalization); the custom ranking's rank_world is proved to return the stored rank",
         ],
         lemmas=["SeenRank.step", "MargAtt.step", "MargLB.step", "MargAny.step", "LitsOK.step", "WofN.map"],
@@ -319,10 +319,10 @@ PROPS = {
         "world_satisfies_conditionalization, the conditionalisations (filter_worlds_by_conditionalization, compute_conditionalization, "
         "conditionalize_existing_ranks: exactly the worlds satisfying the formula, with their ranks), both directions of the TPO "
         "conversion (tpo2ranks, ranks2tpo), the structure of marginalize (every projected world gets the least rank of its ranked "
-        "extensions; the new signature is the subsequence of the remaining atoms) and the constructor chain it ends in (init_custom -> "
-        "CustomPreOCF.__init__ -> PreOCF.__init__ store ranks and signature) from the real source. Which bit positions marginalize "
-        "deletes (string manipulation, abstracted as a function PJ), and all operations end to end on all small rankings, are "
-        "compared with the definitions by the bounded module.",
+        "extensions, where the projection of a world is proved to be the string of its bits at the positions of the kept atoms, in order; "
+        "the new signature is the subsequence of the remaining atoms) and the constructor chain it ends in (init_custom -> "
+        "CustomPreOCF.__init__ -> PreOCF.__init__ store ranks and signature) from the real source. All operations are also compared end to end with their "
+        "definitions on all small rankings by the bounded module.",
     ),
     "C19": dict(
         level="other",
